@@ -18,11 +18,11 @@ RADII = {"SE2": (0.3, 0.2, 0.03), "SE3": (0.1, 0.05, 0.02)}
 META = {
     "rule": "every combination of: family {ring, eight, grid | ring, helix} x size n in {3,6,12} (thorough +24,40) x initial-guess perturbation pattern {plus, minus, alt, sin, cos} x "
     "measurement-noise pattern {zero, alt, sin} x radius {full, half} (thorough: {1, .75, .5, .25}) of the calibrated neighbourhood (SE2: dt .3, dtheta .2, noise .03; SE3: dt .1, dq .05, noise .02) x tol in "
-    "{1e-10,1e-6,1e-3} x information scale {1, 1e-6, 1e-10 (pattern alt only)}, max_iter 50; for pattern alt also three histories: an earlier coarser run (tol 1e-3) on the same Graph object, an earlier iteration with the anchor at another vertex, a landmark entered twice with both vertices seeded from ONE shared pose object. Oracles: final_chi2 <= initial_chi2; Newton decrement b^T H^-1 b of the returned state, from the "
+    "{1e-10,1e-6,1e-3} x information scale {1, 1e-6, 1e-10 (pattern alt only)}, max_iter 50; for pattern alt also three histories: an earlier coarser run (tol 1e-3) on the same Graph object, an earlier iteration with the anchor at another vertex, a landmark entered twice with both vertices seeded from ONE shared pose object; plus two graph variants: every landmark also seen from its first pose through a second sensor offset (same offset id), and a second disconnected displaced copy of the map anchored by the caller at a middle vertex while the first copy relies on fix_first_pose=True. Oracles: final_chi2 <= initial_chi2; Newton decrement b^T H^-1 b of the returned state, from the "
     "REFERENCE error model with 5-point Jacobians, <= 10 tol chi2_final + floor; noise-free: every optimised pose (relative to the fixed first pose) equals ground truth within 1e-7. "
     "non-trivial = initial chi2 > 1e-6 (the run has to move)",
     "assumptions": ["claim limited to the calibrated neighbourhood and the listed families (undamped Gauss-Newton may legitimately diverge outside)", "reference error model + 5-point Jacobians + numpy solve trusted; the converged flag is C12's business"],
-    "required_classes": ["kind:SE2", "kind:SE3", "noise_free", "noisy", "landmarks_with_offset", "loop_closure", "tol:1e-10", "tol:0.001", "weak_information", "hist:two_stage", "hist:reanchor", "hist:shared_landmark_seed"],
+    "required_classes": ["kind:SE2", "kind:SE3", "noise_free", "noisy", "landmarks_with_offset", "loop_closure", "tol:1e-10", "tol:0.001", "weak_information", "hist:two_stage", "hist:reanchor", "hist:shared_landmark_seed", "hist:two_sensors", "hist:two_components"],
     "bounds": {"quick": "n in {3,6,12}", "thorough": "n in {3,6,12,24,40}"},
 }
 
@@ -50,7 +50,7 @@ def run_chunk(chunk, tier, seed):
                     _do(acc, {"kind": kind, "fam": fam, "n": n, "pert": pert, "noise": noise, "rad": rad, "tol": tol, "oscale": osc, "seed": seed})
                 if pert == "alt" and rad == 1.0:
                     # histories / object reuse: the judged run is not the first thing that happens to the Graph object
-                    for hist in ("two_stage", "reanchor", "shared_landmark_seed"):
+                    for hist in ("two_stage", "reanchor", "shared_landmark_seed", "two_sensors", "two_components"):
                         _do(acc, {"kind": kind, "fam": fam, "n": n, "pert": pert, "noise": noise, "rad": rad, "tol": tol, "oscale": 1.0, "seed": seed, "hist": hist})
     return acc
 
@@ -156,6 +156,58 @@ def _eval_inner(case):
             e2["ids"] = [e["ids"][0], twin_id]
             spec["edges"].append(e2)
         truth = truth + [[twin_id, truth[[t[0] for t in truth].index(lm["id"])][1], truth[[t[0] for t in truth].index(lm["id"])][2]]]
+    ffp = False
+    if hist == "two_sensors":
+        # every landmark is also seen from its first pose through a SECOND sensor (another offset, same offset id None)
+        import copy as _c
+
+        kind = case["kind"]
+        off2 = [-0.4, 0.25, -1.1] if kind == "SE2" else [-0.3, 0.2, 0.1] + SF.A.unit([0.3, 0.1, -0.3, 1.0])
+        tmap = {t[0]: t[2] for t in truth}
+        seen = set()
+        for e in list(spec["edges"]):
+            if e["type"] in ("lm", "numlm") and e["ids"][1] not in seen:
+                seen.add(e["ids"][1])
+                e2 = _c.deepcopy(e)
+                e2["off"] = off2
+                sens = G.compose(kind, tmap[e["ids"][0]], off2)
+                e2["z"] = G.act(kind, G.inverse(kind, sens), tmap[e["ids"][1]])
+                spec["edges"].append(e2)
+    if hist == "two_components":
+        # a second, disconnected copy of the map (rigidly displaced) anchored by the CALLER at one of its middle vertices;
+        # the first component relies on optimize(fix_first_pose=True)
+        import copy as _c
+
+        kind = case["kind"]
+        T = [7.0, -3.0, 0.8] if kind == "SE2" else [7.0, -3.0, 2.0] + [0.0, 0.6, 0.0, 0.8]
+        np_ = len([v for v in spec["vertices"] if v["id"] < 1000])
+        tmap = {t[0]: t for t in truth}
+        extra_v, extra_t = [], []
+        for v in spec["vertices"]:
+            v2 = _c.deepcopy(v)
+            v2["id"] = v["id"] + 5000
+            t = tmap[v["id"]]
+            if v["kind"] in ("SE2", "SE3"):
+                v2["pose"] = G.compose(kind, T, v["pose"])
+                t2 = G.compose(kind, T, t[2])
+            else:
+                v2["pose"] = G.act(kind, T, v["pose"])
+                t2 = G.act(kind, T, t[2])
+            v2["fixed"] = bool(v["id"] == np_ // 2)
+            if v2["fixed"]:
+                v2["pose"] = list(t2)
+            extra_v.append(v2)
+            extra_t.append([v2["id"], t[1], t2])
+        extra_e = []
+        for e in spec["edges"]:
+            e2 = _c.deepcopy(e)
+            e2["ids"] = [i + 5000 for i in e["ids"]]
+            extra_e.append(e2)
+        spec["vertices"][0]["fixed"] = False
+        spec["vertices"] += extra_v
+        spec["edges"] += extra_e
+        truth = truth + extra_t
+        ffp = True
     g, verts, edges = GB.build(spec)
     if hist == "shared_landmark_seed":
         byid = {v.id: v for v in verts}
@@ -172,7 +224,7 @@ def _eval_inner(case):
         verts[k].fixed = False
         verts[0].pose = I.mk_pose(spec["vertices"][0]["kind"], truth[0][2])
         verts[0].fixed = True
-    res = GB.optimize(g, tol=case["tol"], max_iter=50, fix_first_pose=False)
+    res = GB.optimize(g, tol=case["tol"], max_iter=50, fix_first_pose=ffp)
     msgs = []
     ratio = judge(case, spec, truth, res, verts, msgs)
     classes = ["kind:" + case["kind"], "noise_free" if case["noise"] == "zero" else "noisy", "landmarks_with_offset", "loop_closure", "tol:%g" % case["tol"]]
